@@ -49,6 +49,41 @@ func newServer() *signaling_rpc_server.Server {
 	return signaling_rpc_server.NewServer(quietLog)
 }
 
+// relayStuck is set when an exported state accessor of the relay does not return within 3 s: the relay's state lock is
+// held and never released, so every call hangs. The checks report that instead of hanging themselves.
+var relayStuck atomic.Bool
+
+// withRelay runs f (an accessor that takes the relay's lock); ok=false if it does not return in time.
+func withRelay(f func()) bool {
+	if relayStuck.Load() {
+		return false
+	}
+	done := make(chan struct{})
+	go func() { defer close(done); f() }()
+	select {
+	case <-done:
+		return true
+	case <-time.After(3 * time.Second):
+		relayStuck.Store(true)
+		return false
+	}
+}
+
+func hookState(srv *signaling_rpc_server.Server) (np, ns int, m map[string]uint64) {
+	withRelay(func() { np, ns, m = srv.VerifState() })
+	return
+}
+
+func hookSessionSide(srv *signaling_rpc_server.Server, src, dst string) (r bool) {
+	withRelay(func() { r = srv.VerifSessionSide(src, dst) })
+	return
+}
+
+func hookListenState(srv *signaling_rpc_server.Server, id string) (l bool, n uint64) {
+	withRelay(func() { l, n = srv.VerifListenState(id) })
+	return
+}
+
 // identCtx is the context of a call arriving over an authenticated stream of identity who (who < 0: a context
 // without any mounted stream, i.e. an unauthenticated caller).
 func identCtx(who int) context.Context {
@@ -267,7 +302,7 @@ func (s *srvSession) startRegistered(srv *signaling_rpc_server.Server, old *srvS
 		if e, _ := s.ended(); e {
 			return true
 		}
-		return srv.VerifSessionSide(src, dst)
+		return relayStuck.Load() || hookSessionSide(srv, src, dst)
 	}) {
 		return false
 	}
@@ -292,10 +327,14 @@ func (s *srvSession) ended() (bool, error) {
 // stop cancels the call and waits for the handler.
 func (s *srvSession) stop() bool {
 	s.cancel()
+	d := 10 * time.Second
+	if relayStuck.Load() {
+		d = 100 * time.Millisecond
+	}
 	select {
 	case <-s.done:
 		return true
-	case <-time.After(10 * time.Second):
+	case <-time.After(d):
 		return false
 	}
 }
@@ -394,11 +433,11 @@ func (s *srvListen) start(srv *signaling_rpc_server.Server) {
 // listening, and a new nonce if a call was registered before).
 func (s *srvListen) startRegistered(srv *signaling_rpc_server.Server) (ok bool) {
 	id := gen.PeerID(s.who).String()
-	pl, pn := srv.VerifListenState(id)
+	pl, pn := hookListenState(srv, id)
 	s.start(srv)
 	if os.Getenv("VERIF_DEBUG") != "" {
 		defer func() {
-			l, n := srv.VerifListenState(id)
+			l, n := hookListenState(srv, id)
 			fmt.Fprintf(os.Stderr, "listen startRegistered: before (%v,%d) after (%v,%d) ok=%v\n", pl, pn, l, n, ok)
 		}()
 	}
@@ -407,7 +446,10 @@ func (s *srvListen) startRegistered(srv *signaling_rpc_server.Server) (ok bool) 
 			// refused: a result, not a registration that is still to come
 			return true
 		}
-		l, n := srv.VerifListenState(id)
+		if relayStuck.Load() {
+			return true
+		}
+		l, n := hookListenState(srv, id)
 		// operations are applied one at a time, so while a call was registered before only the new call's
 		// registration can change the nonce; without a registered call the new one shows up as listening
 		if pl {
@@ -430,10 +472,14 @@ func (s *srvListen) ended() (bool, error) {
 }
 func (s *srvListen) stop() bool {
 	s.cancel()
+	d := 10 * time.Second
+	if relayStuck.Load() {
+		d = 100 * time.Millisecond
+	}
 	select {
 	case <-s.done:
 		return true
-	case <-time.After(10 * time.Second):
+	case <-time.After(d):
 		return false
 	}
 }
